@@ -18,6 +18,7 @@ structure AccCfg where
   limit : Nat      -- 0 = none
   cf : Nat         -- consumer fails on its k-th call (0 = never)
   mfail : Int      -- mapper fails / panics for this element (-1 = never)
+  ofail : Bool := false  -- a lifecycle element after the stage fails to open: the terminal never pulls
 
 def dedupItems (l : List Item) : List Item := l.eraseDups
 
@@ -27,7 +28,7 @@ def tauLabels (a : AccCfg) (s : St) : List Label :=
     .cCheck, .cSelCtx, .cRecv, .cClosed, .cClose0, .cCloseW, .cClose1, .cClose2]
   let holds := dedupItems s.wHold
   let k := s.delivered.length
-  base ++ holds.map .wSend ++ holds.map .wDrop
+  base ++ (if a.ofail then [.cOpenFail] else []) ++ holds.map .wSend ++ holds.map .wDrop
     ++ (if s.pctx then [.pTop] else [])                       -- the producer sees producerCtx.Done at the top of its loop
     ++ (if s.ctx1 || !a.mg then                               -- a mapper call returns by itself: not gated, or its ctx is done
           s.wMap.map (fun (i : Nat) => if s.ctx1 && a.mg then Label.wMapErr i
@@ -116,8 +117,8 @@ def resMatches (obsRes : String) (r : Option ConcMap.Res) : Bool :=
 def acceptCmap (c : Case) (o : Obs) : String :=
   let mfail : Int := if c.mf ≥ 0 then c.mf else c.mp
   let lim := if c.first then 1 else c.limit
-  let a : AccCfg := { cfg := { n := c.n, c := c.c, e := 1000 }, mg := c.mg, cg := c.cg, limit := lim, cf := c.cf, mfail := mfail }
-  if c.n > 6 || c.c > 3 || c.filt != "" then "skipped" else
+  let a : AccCfg := { cfg := { n := c.n, c := c.c, e := 1000 }, mg := c.mg, cg := c.cg, limit := lim, cf := c.cf, mfail := mfail, ofail := c.ofail != "" }
+  if c.n > 6 || c.c > 3 || c.filt != "" || c.rep > 1 then "skipped" else
   match acceptEvents a 20000 [ConcMap.init a.cfg] o.plog with
   | none => "skipped"
   | some (_, some ev) => s!"rejected at {ev}"
